@@ -3,6 +3,7 @@ package checks
 import (
 	"fmt"
 	"os"
+	"strconv"
 	"strings"
 
 	"mvdan.cc/sh/v3/syntax"
@@ -48,6 +49,22 @@ func c05(c *vc.Ctx) {
 		// that every (program, variant) is one case with one key
 		first := map[string]bool{}
 		emit := func(t synCase) { first[t.Src] = true; emit0(t) }
+		if part := os.Getenv("VERIF_C05_PART"); strings.HasPrefix(part, "keys:") {
+			// development aid: re-run the second-generator cases whose
+			// keys (column 3 of a VERIF_DUMP file) are listed in a file
+			c.CapNote("VERIF_C05_PART=keys: only the listed cases")
+			data, _ := os.ReadFile(strings.TrimPrefix(part, "keys:"))
+			for _, line := range strings.Split(string(data), "\n") {
+				line = strings.TrimPrefix(line, "w:")
+				v, rest, ok := strings.Cut(line, " ")
+				if i := strings.LastIndex(rest, "\" "); ok && i > 0 {
+					if src, err := strconv.Unquote(rest[:i+1]); err == nil {
+						emit0(synCase{src, v, 5})
+					}
+				}
+			}
+			return
+		}
 		if os.Getenv("VERIF_C05_PART") == "w" { // development aid: second generator only
 			c.CapNote("VERIF_C05_PART=w: first generator skipped")
 			c05GenSets(c, first, emit0)
@@ -152,7 +169,7 @@ func c05(c *vc.Ctx) {
 				if cfg.Minify {
 					kind = "minify-comments"
 				}
-				class := c05Class(f, cfg, got, exp)
+				class := c05Class(f, cfg, out, got, exp)
 				if class == "singleline-drops-comments" {
 					kind = "singleline-comments"
 				}
